@@ -492,6 +492,13 @@ class Splicer:
                 edits.append((toks[body_close - 1].end, toks[body_close - 1].end, block + "\n", "ghost", dict(meta)))
                 edits.append((toks[body_close - 1].end, toks[body_close - 1].end, nm + "\n", "R13c", {}))
                 info.rewrites.append("R13@%s:%d" % (os.path.basename(sf.path), sf.line_of(base + toks[ti].start)))
+            elif name == "after_loop":
+                idx = int(args.strip().split()[0])
+                if idx >= len(loops):
+                    raise SpliceError("lost anchor: %s has %d loops, contract names loop %d" % (key, len(loops), idx))
+                ghost_check(slines, "after_loop")
+                close = match_close(toks, loops[idx][1])
+                ins(toks[close].end, "\n" + block + "\n", "ghost", **meta)
             elif name == "body_end":
                 ghost_check(slines, "body_end")
                 ins(toks[body_close].start, "\n" + block + "\n", "ghost", **meta)
@@ -513,7 +520,12 @@ class Splicer:
                         k += 1
                     pat = text[toks[kwi + 1].start:toks[k - 1].end]
                     itn = lkv["r8"]
-                    edits.append((toks[kwi].start, toks[k].end, "{ let mut %s =" % itn, "R8a", {}))
+                    if lkv.get("into"):
+                        # a `for` loop calls IntoIterator::into_iter on its operand (identity for iterators)
+                        edits.append((toks[kwi].start, toks[k].end, "{ let mut %s = iter::IntoIterator::into_iter(" % itn, "R8a", {}))
+                        edits.append((toks[bri].start, toks[bri].start, ")", "R8a", {}))
+                    else:
+                        edits.append((toks[kwi].start, toks[k].end, "{ let mut %s =" % itn, "R8a", {}))
                     close = match_close(toks, bri)
                     ghost_check(slines, "loop %d" % idx)
                     stripped = [x.strip() for x in slines]
